@@ -81,6 +81,10 @@ def generate(prop, rng, index, tier):
             present = [v for v, m in zip(grids[g]["values"], grids[g]["mask"]) if not m]
             rd["missing"] = rng.choice(present) if present and rng.random() < 0.7 else -12345
         reads.append(rd)
+    # API clients sometimes build the command first and set / change its arguments before running it
+    for rd in reads:
+        if rng.random() < 0.15:
+            rd["built_with_dtype"] = rng.choice([None] + list(DTYPES))
     # a value that is close to, but not equal to, the missing value must stay a value
     for rd in reads:
         g = grids[rd["grid"]]
@@ -96,7 +100,9 @@ def generate(prop, rng, index, tier):
     if ngrids >= 2 and rng.random() < 0.4:
         k = rng.randint(1, ngrids - 1)
         second = {"grids": rng.sample(range(ngrids), k), "reads": [{"grid_pos": rng.randrange(k), "dtype": rng.choice([None, "Float"]),
-                                                                    "missing": None}]}
+                                                                    "missing": None}],
+                  # the template file is regenerated (other coordinate values) at the same path before the second write
+                  "regen_template": rng.random() < 0.5}
     # reads of the template's own variable (stored with a negative fill value and some missing cells)
     treads = []
     if rng.random() < 0.35:
@@ -251,7 +257,20 @@ def execute(sc):
                     if rd.get("missing") is not None:
                         args["MissingValue"] = rd["missing"]
                     rname = "R%d" % k
-                    program.add_command(program.find_command_class("EEMSRead"), rname, args)
+                    if "built_with_dtype" in rd and rd.get("built_with_dtype") != rd.get("dtype"):
+                        from mpilot.arguments import Argument
+                        first = dict(args)
+                        first.pop("DataType", None)
+                        if rd["built_with_dtype"]:
+                            first["DataType"] = rd["built_with_dtype"]
+                        program.add_command(program.find_command_class("EEMSRead"), rname, first)
+                        cmd = program.commands[rname]
+                        cmd.arguments[:] = [a for a in cmd.arguments if a.name != "DataType"]
+                        if rd.get("dtype"):
+                            cmd.arguments.append(Argument("DataType", rd["dtype"]))
+                        res.probe("arguments of the constructed command edited before it ran")
+                    else:
+                        program.add_command(program.find_command_class("EEMSRead"), rname, args)
                     log.emit("op-begin", op="READ", var=args["InFieldName"], dtype=rd.get("dtype"), missing=rd.get("missing"))
                     try:
                         got = program.commands[rname].result
@@ -267,6 +286,16 @@ def execute(sc):
                 if sw:
                     sel = [sc["grids"][i % len(sc["grids"])] for i in sw["grids"]]
                     names2 = [g["name"] for g in sel]
+                    t2 = t
+                    if sw.get("regen_template"):
+                        t2 = copy.deepcopy(t)
+                        for d in t2["coords"]:
+                            c2 = t2["coords"][d]
+                            c2["values"] = [(v + 7 if not isinstance(v, float) else v + 7.5) for v in c2["values"]]
+                            c2["attrs"] = dict(c2["attrs"], long_name="regenerated " + d)
+                        os.remove(tmpl)
+                        _make_template(tmpl, t2)
+                        res.probe("template regenerated at the same path between two writes")
                     program.add_command(program.find_command_class("EEMSWrite"), "__write2__",
                                         {"OutFileName": "out2.nc", "OutFieldNames": names2, "DimensionFileName": tmpl,
                                          "DimensionFieldName": t["var"]["name"]})
@@ -285,6 +314,15 @@ def execute(sc):
                         union2 = [False] * int(numpy.prod(shape))
                         for g in sel:
                             union2 = [a or b for a, b in zip(union2, g["mask"])]
+                        with Dataset(os.path.join(root, "out2.nc")) as ds2, Dataset(tmpl) as ts2:
+                            for d, n in t2["dims"]:
+                                a, b = ds2.variables[d], ts2.variables[d]
+                                if numpy.asarray(a[:]).tobytes() != numpy.asarray(b[:]).tobytes() or \
+                                        {k: a.getncattr(k) for k in a.ncattrs()} != {k: b.getncattr(k) for k in b.ncattrs()}:
+                                    res.violate("C18.dims", "C18.dims second-write-coordinates-stale",
+                                                "second write: coordinate %s is %r, the template at that path now has %r"
+                                                % (d, numpy.asarray(a[:]).tolist(), numpy.asarray(b[:]).tolist()))
+                                    break
                         res.probe("some of the results written again on their own")
                         for k, rd in enumerate(sw["reads"]):
                             g = sel[rd["grid_pos"] % len(sel)]
